@@ -15,12 +15,16 @@ class GreenletTimeout(BaseException):
     pass
 
 
+class WouldBlock(BaseException):
+    """a recv() that would wait for bytes the peer will never send"""
+
+
 def make_exc(tag):
     import pymemcache.exceptions as X
     name = core.EXN_NAMES[tag]
     table = {
         "BaseException": BaseException, "KeyboardInterrupt": KeyboardInterrupt, "SystemExit": SystemExit,
-        "GreenletTimeout": GreenletTimeout, "Exception": Exception, "ValueError": ValueError, "TypeError": TypeError,
+        "GreenletTimeout": GreenletTimeout, "WouldBlock": WouldBlock, "Exception": Exception, "ValueError": ValueError, "TypeError": TypeError,
         "IndexError": IndexError, "KeyError": KeyError, "AttributeError": AttributeError, "RuntimeError": RuntimeError,
         "AssertionError": AssertionError, "OSError": OSError, "ConnectionRefusedError": ConnectionRefusedError,
         "ConnectionResetError": ConnectionResetError, "SocketTimeout": real_socket.timeout, "GaiError": real_socket.gaierror,
@@ -41,15 +45,25 @@ IO_TIMEOUT = 7.0
 
 
 class World:
-    """script items: 0 normal | 1 EINTR | (tag,) raise | bytes data"""
+    """script: outcomes of non-recv calls (0 normal | (tag,) raise)
+    choices: one per recv (n > 0: deliver at most n bytes | 0: EINTR | (tag,): raise | None: end of stream);
+             exhausted: deliver everything available
+    replies: the reply the peer makes available after the k-th successful sendall (any socket)
+    peer:    optional callable(sent_bytes) -> reply bytes, used instead of `replies`"""
 
-    def __init__(self, script, naddr=1):
+    def __init__(self, script, choices=(), replies=(), naddr=1, peer=None):
         self.script = list(script)
         self.pos = 0
+        self.choices = list(choices)
+        self.cpos = 0
+        self.replies = list(replies)
+        self.rpos = 0
+        self.peer = peer
         self.trace = []
         self.next_sid = 0
         self.naddr = naddr
         self.socks = []
+        self.tags = []          # ghost: per sendall, (sid, bytes sent, reply)
 
     def pop(self):
         if self.pos < len(self.script):
@@ -64,11 +78,21 @@ class World:
         if isinstance(o, tuple):
             raise make_exc(o[0])
 
+    def reply_to(self, data):
+        if self.peer is not None:
+            return self.peer(data)
+        if self.rpos < len(self.replies):
+            r = self.replies[self.rpos]
+            self.rpos += 1
+            return r
+        return b""
+
 
 class FakeSocket:
-    def __init__(self, world, sid, addr):
+    def __init__(self, world, sid, addr, avail=None):
         self.w, self.sid, self.addr = world, sid, addr
         self.closed = False
+        self.avail = avail if avail is not None else bytearray()
         world.socks.append(self)
 
     def setsockopt(self, level, opt, val):
@@ -91,17 +115,30 @@ class FakeSocket:
 
     def sendall(self, data):
         self.w.call((7, self.sid, bytes(data)))
+        r = self.w.reply_to(bytes(data))
+        self.w.tags.append((self.sid, bytes(data), bytes(r)))
+        self.avail += r
 
     def recv(self, size):
         self.w.trace.append((8, self.sid))
-        o = self.w.pop()
-        if isinstance(o, tuple):
-            raise make_exc(o[0])
-        if o == 1:
+        w = self.w
+        if w.cpos < len(w.choices):
+            c = w.choices[w.cpos]
+            w.cpos += 1
+        else:
+            c = 1 << 62
+        if isinstance(c, tuple):
+            raise make_exc(c[0])
+        if c is None:
+            return b""
+        if c == 0:
             raise OSError(errno.EINTR, "interrupted")
-        if isinstance(o, (bytes, bytearray)):
-            return bytes(o)
-        return b""
+        if not self.avail:
+            raise WouldBlock("recv would block: nothing owed by the peer")
+        n = max(int(c), 1)
+        out = bytes(self.avail[:n])
+        del self.avail[:n]
+        return out
 
     def close(self):
         self.closed = True
@@ -148,7 +185,8 @@ class FakeTLS:
         sid = self.w.next_sid
         self.w.next_sid += 1
         self.w.trace.append((4, sock.sid, sid))
-        ws = FakeSocket(self.w, sid, sock.addr)
+        ws = FakeSocket(self.w, sid, sock.addr, avail=sock.avail)
+        sock.avail = bytearray()
         ws.raw = sock
         return ws
 
@@ -286,12 +324,12 @@ def canon_value(v):
     return ("other", repr(v))
 
 
-def run_impl(cfg, ops, script, make_client=None):
-    """Run the real Client; returns (results, trace, final sid or None, unused script items)."""
+def run_impl(cfg, ops, script, choices=(), replies=(), make_client=None, peer=None):
+    """Run the real Client; returns (results, trace, final sid, unused script items, unused choices, world)."""
     from pymemcache.client.base import Client
     c = dict(DEFAULT_CFG)
     c.update(cfg)
-    world = World(script, c["naddr"])
+    world = World(script, choices, replies, c["naddr"], peer)
     server, kw = client_kwargs(cfg, world)
     cl = make_client(server, kw) if make_client else Client(server, **kw)
     results = []
@@ -301,16 +339,13 @@ def run_impl(cfg, ops, script, make_client=None):
         except BaseException as e:  # noqa
             results.append(("e", core.exn_name(e)))
     sock = getattr(cl, "sock", None)
-    return results, [tuple(e) for e in world.trace], (sock.sid if sock is not None else None), len(world.script) - world.pos, world
+    return (results, [tuple(e) for e in world.trace], (sock.sid if sock is not None else None),
+            len(world.script) - world.pos, max(0, len(world.choices) - world.cpos),
+            bytes(sock.avail) if sock is not None else b"", world)
 
 
-def run_model(driver, cfg, ops, script, hk=None):
-    r = driver.call(1, cfg_list(cfg, hk), [tuple(o) for o in ops], list(script))
-    return decode_model(r)
-
-
-def model_req(cfg, ops, script, hk=None):
-    return (1, (cfg_list(cfg, hk), [enc_op(o) for o in ops], list(script)))
+def model_req(cfg, ops, script, choices=(), replies=(), hk=None):
+    return (1, (cfg_list(cfg, hk), [enc_op(o) for o in ops], list(script), list(choices), list(replies)))
 
 
 def enc_op(o):
@@ -327,13 +362,14 @@ def enc_op(o):
 
 
 def decode_model(r):
+    """-> (results, trace, sock, unused script, unused choices, avail on current socket, discarded bytes)"""
     if r[0] != "ok":
         return ("model-error", r)
-    results, trace, sock, left = r[1]
+    results, trace, sock, left, cleft, discarded, avail = r[1]
     res = []
     for kind, v in results:
         if kind == "o":
             res.append(("o", canon_value(v)))
         else:
             res.append(("e", core.EXN_NAMES[v]))
-    return res, [tuple(e) for e in trace], sock, left
+    return res, [tuple(e) for e in trace], sock, left, cleft, avail, discarded
